@@ -8,6 +8,7 @@ from __future__ import annotations
 import contextlib
 import io
 import logging
+import json
 import os
 import sys
 import threading
@@ -57,6 +58,16 @@ class Recorder:
             return str(p.resolve().relative_to(self.directory)) if self.directory else str(p)
         except ValueError:
             return str(p)
+
+
+def holds_report(path) -> bool:
+    """the report was WRITTEN: the file holds a JSON document (an empty or truncated leftover of a failed write is not a report)"""
+    try:
+        with open(path, "rb") as f:
+            data = f.read()
+        return bool(data.strip()) and isinstance(json.loads(data), dict)
+    except (OSError, ValueError):
+        return False
 
 
 def _faults(inject: dict, key: str) -> list[dict]:
@@ -378,7 +389,7 @@ def install() -> None:
             if _active is not None:
                 # a special file (/dev/null, a pipe) cannot be inspected afterwards: the status is all there is
                 regular = os.path.isfile(outfile) or not os.path.exists(outfile)
-                _active.emit("ReportWritten", rc=rc, out=str(outfile), exists=os.path.isfile(outfile) if regular else rc == 0)
+                _active.emit("ReportWritten", rc=rc, out=str(outfile), exists=holds_report(outfile) if regular else rc == 0)
 
     codetf.CodeTF.write_report = write_report
 
